@@ -274,10 +274,21 @@ TMetrics ==
       ELSE UNCHANGED <<cnt, pcnt>>)
   /\ UNCHANGED vars /\ UNCHANGED <<ips, jadds, nats>> /\ Adv
 
+(* A scenario whose client polls were byte-identical (same offer, NAT type and fingerprint, as an AMP
+   cache re-fetch or a retry would be): its events cannot be attributed to clients by content, so only
+   the counts at quiescence are judged - OneOfferPerPoll / OnePollPerOffer / NoCrossWire as numbers:
+   every client that got past the matching was handed to exactly one proxy of its own, and no answer
+   reached two clients.  The model state is not advanced (the scenario runs in a process of its own). *)
+TOutcome ==
+  /\ Is("outcome")
+  /\ Ev.offers = Ev.matched
+  /\ Ev.distinct = Ev.answered
+  /\ UNCHANGED vars /\ Keep /\ Adv
+
 TNext ==
   \/ TReset \/ TAdd \/ TMatch \/ TOfferGate \/ TSent \/ TWOffer \/ TForwarded \/ TGot
   \/ TWTimeout \/ TWLocked \/ TWClaimed \/ TPResp \/ TPRejected \/ TCAnswer \/ TCTimeout \/ TCPre \/ TCCleanup \/ TCResp
-  \/ TALookup \/ TASendGate \/ TSilentSend \/ TSilentGet \/ TASent \/ TADropped \/ TAResp \/ TTick \/ TEnd \/ TMetrics \/ TMLocked \/ TDebug \/ TJournal
+  \/ TALookup \/ TASendGate \/ TSilentSend \/ TSilentGet \/ TASent \/ TADropped \/ TAResp \/ TTick \/ TEnd \/ TMetrics \/ TMLocked \/ TDebug \/ TJournal \/ TOutcome
 
 TSpec == TInit /\ [][TNext]_tvars
 
